@@ -707,7 +707,7 @@ func cdsGatewayShapeChanged(proxy *model.Proxy) bool {
 
 // cdsHeadlessOnly: the request is nothing but headless-endpoint notifications (the CDS short cut).
 func cdsHeadlessOnly(req *model.PushRequest) bool {
-	return req.Reason.Has(model.HeadlessEndpointUpdate) && !req.Reason.Has(model.ServiceUpdate) && model.VerifAllKind(req.ConfigsUpdated, kind.ServiceEntry)
+	return req.Reason.Has(model.HeadlessEndpointUpdate) && len(req.Reason) == 1 && model.VerifAllKind(req.ConfigsUpdated, kind.ServiceEntry)
 }
 
 // cdsDecision: the push decision of cdsNeedsPush, as a function of the request and the proxy.
@@ -749,7 +749,7 @@ func invCdsNeedsPush(req *model.PushRequest, proxy *model.Proxy, headlessOnly, f
 	cu := req.ConfigsUpdated
 	seen := func(k model.ConfigKey) bool { return cuHas(req, k) && verif.Visited(cu, k) }
 	return relevantUpdates != nil && verif.Fresh(relevantUpdates) && model.VerifRequestUntouched(req) &&
-		headlessOnly == (req.Reason.Has(model.HeadlessEndpointUpdate) && !req.Reason.Has(model.ServiceUpdate) &&
+		headlessOnly == (req.Reason.Has(model.HeadlessEndpointUpdate) && len(req.Reason) == 1 &&
 			verif.Forall(func(k model.ConfigKey) bool { return !seen(k) || k.Kind == kind.ServiceEntry })) &&
 		checkGateway == (proxy.Type == model.Router && verif.Exists(func(k model.ConfigKey) bool { return seen(k) && k.Kind == kind.Gateway })) &&
 		verif.Forall(func(k model.ConfigKey) bool {
@@ -768,6 +768,41 @@ func invCdsNeedsPush(req *model.PushRequest, proxy *model.Proxy, headlessOnly, f
 func lemmaCdsMergedRequestNeverWeaker(r1, r2 *model.PushRequest, proxy *model.Proxy) {
 	verif.Requires("requests-and-proxy-present", r1 != nil && r2 != nil && proxy != nil)
 	// every notification carries at least one reason (ConfigUpdate callers always set it)
+	verif.Requires("notifications-carry-a-reason", len(r1.Reason) > 0 && len(r2.Reason) > 0)
+	// reasons are counted from 1 (ReasonStats.Add / NewReasonStats)
+	verif.Requires("reason-counts-positive", verif.Forall(func(k model.TriggerReason) bool {
+		c1, in1 := r1.Reason[k]
+		c2, in2 := r2.Reason[k]
+		return (!in1 || c1 > 0) && (!in2 || c2 > 0)
+	}))
+	m := r1.CopyMerge(r2)
+	// proof steps about the merged request
+	hl := model.HeadlessEndpointUpdate
+	verif.Lemma("merged-reason-keys", verif.Forall(func(k model.TriggerReason) bool {
+		_, in := m.Reason[k]
+		_, in1 := r1.Reason[k]
+		_, in2 := r2.Reason[k]
+		return in == (in1 || in2) && m.Reason[k] == r1.Reason[k]+r2.Reason[k]
+	}))
+	verif.Lemma("single-merged-reason-is-each-one's-single-reason", !(len(m.Reason) == 1 && m.Reason.Has(hl)) ||
+		(len(r1.Reason) == 1 && r1.Reason.Has(hl) && len(r2.Reason) == 1 && r2.Reason.Has(hl)))
+	verif.Lemma("merged-keys-cover-both", verif.Forall(func(k model.ConfigKey) bool { return cuHas(m, k) == (cuHas(r1, k) || cuHas(r2, k)) }))
+	verif.Lemma("merged-headless-only-if-both-are", !cdsHeadlessOnly(m) || (cdsHeadlessOnly(r1) && cdsHeadlessOnly(r2)))
+	verif.Lemma("merged-forced-and-waypoints", m.Forced == (r1.Forced || r2.Forced) &&
+		verif.Forall(func(r model.WaypointReference) bool { return wuHas(m, r) == (wuHas(r1, r) || wuHas(r2, r)) }))
+	d1, d2, dm := cdsDecision(r1, proxy), cdsDecision(r2, proxy), cdsDecision(m, proxy)
+	verif.Lemma("decision-monotone", (!d1 || dm) && (!d2 || dm))
+	// Together with cdsNeedsPush#post:decision (the real function returns exactly cdsDecision) this is the
+	// statement on the code; lemmaCdsMergedRequestNeverWeakerOnCode below runs the same thing on the real
+	// functions and is what a counterexample is replayed through.
+}
+
+// The merge lemma phrased on the real functions (used to replay counterexamples; not part of the claim:
+// it follows from cdsNeedsPush's contract and the lemma above).
+//
+//verif:lemma
+func lemmaCdsMergedRequestNeverWeakerOnCode(r1, r2 *model.PushRequest, proxy *model.Proxy) {
+	verif.Requires("requests-and-proxy-present", r1 != nil && r2 != nil && proxy != nil)
 	verif.Requires("notifications-carry-a-reason", len(r1.Reason) > 0 && len(r2.Reason) > 0)
 	_, alone1 := cdsNeedsPush(r1, proxy)
 	_, alone2 := cdsNeedsPush(r2, proxy)
